@@ -14,21 +14,22 @@ def obs(group, role, name, findings, exit_code, **extra):
     return d
 
 
+MAXF = 12000     # findings per TLC run
 CHUNK = 400      # observations per TLC run (groups are independent of each other and are never split)
 
 
-def judge(rel_name, exclude, observations, timeout=900):
+def judge(rel_name, exclude, observations, timeout=1800):
     """Returns (npairs, bad) where bad is the list of violating pairs computed by TLC. Large inputs are judged in several
     TLC runs, group by group."""
     observations = list(observations)
-    if len(observations) > CHUNK:
+    if len(observations) > CHUNK or sum(len(o["findings"]) for o in observations) > MAXF:
         groups = {}
         for o in observations:
             groups.setdefault(o["group"], []).append(o)
         if len(groups) > 1:
             npairs, bad, cur = 0, [], []
             for g in groups.values():
-                if cur and len(cur) + len(g) > CHUNK:
+                if cur and (len(cur) + len(g) > CHUNK or sum(len(o["findings"]) for o in cur + g) > MAXF):
                     n, b = _judge1(rel_name, exclude, cur, timeout)
                     npairs += n
                     bad += b
